@@ -58,8 +58,11 @@ def main():
         if os.path.exists(os.path.join(src, "demo.diff")):
             rc, out = sh("patch -p1 --no-backup-if-mismatch < %s/demo.diff" % src, cwd=scratch)
             confirm["demo_applies"] = rc == 0
-            new_files = re.findall(r"^\+\+\+ b/(\S+)", open(os.path.join(src, "demo.diff")).read(), re.M)
-            tests = [os.path.splitext(os.path.basename(f))[0] for f in new_files if f.startswith("tests/")]
+            demo_text = open(os.path.join(src, "demo.diff")).read()
+            touched = re.findall(r"^\+\+\+ b/(\S+)", demo_text, re.M)
+            # files the demonstration CREATES (removed again afterwards); files it only appends to are restored by patch -R
+            new_files = re.findall(r"^--- /dev/null\n\+\+\+ b/(\S+)", demo_text, re.M)
+            tests = [os.path.splitext(os.path.basename(f))[0] for f in touched if f.startswith("tests/")]
             demo_cmd = ("cargo test --offline --test %s 2>&1" % tests[0]) if tests else "cargo test --offline --lib seed 2>&1"
             confirm["demo_cmd"] = demo_cmd
             rc1, out1 = sh("timeout 600 " + demo_cmd, cwd=scratch)
